@@ -353,7 +353,8 @@ class C19(Check):
         ]
 
     def replay(self, name, model, rec):
-        return None
+        from checks import replay_server
+        return replay_server.replay_c19(name, model, rec)
 
 
 CHECK = C19()
